@@ -15,6 +15,13 @@ for sid in sorted(os.listdir(base)):
     patch = os.path.join(d, 'patch.diff')
     if not os.path.exists(patch):
         continue
+    try:
+        if json.load(open(os.path.join(d, 'meta.json'))).get('neutralised_by_fix'):
+            out[sid] = 'NEUTRALISED BY FIX ' + json.load(open(os.path.join(d, 'meta.json')))['neutralised_by_fix']
+            print(sid, out[sid])
+            continue
+    except (OSError, ValueError):
+        pass
     if subprocess.run(['git', '-C', '/repo', 'apply', '--check', patch]).returncode != 0:
         out[sid] = 'PATCH DOES NOT APPLY'
         continue
